@@ -663,15 +663,17 @@ class FmtStr:
         counter = 0
         parts = []
         for chunk in self.chunks:
-            if index.start < counter + chunk.width and index.stop > counter:
-                start = max(0, index.start - counter)
-                end = min(index.stop - counter, chunk.width)
-                if end - start == chunk.width:
+            # the columns are those of the whole string, not of the chunk: a
+            # combining character belongs to the column it ends at, whichever
+            # chunk it is in (so a chunk that begins at the last requested
+            # column can still contribute the combining characters it starts with)
+            if index.start < counter + chunk.width and index.stop >= counter:
+                s_part = width_aware_slice(
+                    chunk.s, index.start - counter, index.stop - counter
+                )
+                if s_part == chunk.s:
                     parts.append(chunk)
-                else:
-                    s_part = width_aware_slice(
-                        chunk.s, max(0, index.start - counter), index.stop - counter
-                    )
+                elif s_part:
                     parts.append(Chunk(s_part, chunk.atts))
             counter += chunk.width
             if index.stop < counter:
